@@ -133,7 +133,7 @@ pub fn search(_obl: &str) -> Vec<Witness> {
     let mut found: Vec<Witness> = vec![];
     let mut per_pos: std::collections::HashMap<String, usize> = Default::default();
     let alpha = ['a', '"', '`', ' ', ';', '\'', 'é', '\u{122}', '\u{160}', '\u{2022}'];
-    crate::util::strings(&alpha, 3, |s| {
+    crate::util::strings(&alpha, if crate::util::deep() { 4 } else { 3 }, |s| {
         if s.is_empty() { return false; }
         if let Ok(ws) = std::panic::catch_unwind(|| check_all(s)) {
             for (pos, w) in ws {
